@@ -187,7 +187,8 @@ def compare(mod, ref, data, abi="legacy"):
                 continue
             # ---- write ----
             if not wr:
-                out.append((sname, "write: no probe result for leaf %s" % path))
+                if not (kind == "enum" and len(mod.enums[t.name].variants) == 1):    # a one-variant enum has no second value to write
+                    out.append((sname, "write: no probe result for leaf %s" % path))
             else:
                 for pr in wr:
                     rng = list(range(off, off + w))
